@@ -228,7 +228,11 @@ Example C13_revision_append_only_nonvacuous :
                  /\ file = "0002_tighten.vespertide.json" /\ p_version p = 2%N.
 Proof. do 2 eexists. split; [vm_compute; reflexivity|]. split; reflexivity. Qed.
 
-(* (P) no run of revision ever removes or changes a stored migration; every outcome but RevWrote leaves the project as it is *)
+(* (P) no run of revision ever removes or changes a stored migration; every outcome but RevWrote leaves the project as it is.
+   The statement quantifies over every project, hence over all three migration formats (cf_migration_format only selects the
+   file extension in [migration_filename]; the existence test in [revision_finish] does not look at it): there is ONE guard
+   for json / yaml / yml, as in revision.rs (`if path.exists() { bail! }` before the format-specific writer is chosen).
+   K-cli's overwrite streams run colliding messages under all three formats. *)
 Theorem C13_revision_never_overwrites : forall P m f env,
   (forall n q, In (n, q) (pj_migrations P) -> In (n, q) (pj_migrations (step_revision P m f env)))
   /\ (forall o, cmd_revision P m f env = Ok o -> (forall file p, o <> RevWrote file p) -> step_revision P m f env = P)
